@@ -18,18 +18,33 @@ def _floats(lo, hi):
 
 
 @st.composite
-def spectral_case(draw, dim, kappa_max=50.0, norm_max=50.0, min_sep=0.1, max_cells=40):
-    """JSON description of a dim x dim matrix with cond(V) <= kappa_max, ||M|| <= norm_max, separation >= min_sep."""
+def spectral_case(draw, dim, kappa_max=50.0, norm_max=50.0, min_sep=0.1, max_cells=40, tiny_first=False):
+    """JSON description of a dim x dim matrix with cond(V) <= kappa_max, ||M|| <= norm_max, separation >= min_sep.
+
+    tiny_first: the first eigenvalue is (nearly) zero -- modulus 0 or radius*10^-(k+u), k in 3..16, any phase -- i.e. a
+    (nearly) singular matrix; it owns the central lattice cell, so the separation guarantee is unchanged."""
     kappa = math.exp(draw(_floats(0.0, math.log(kappa_max))))
     radius = norm_max / kappa  # max |lambda|
     half = radius / math.sqrt(2.0)
     cell = max(3.0 * min_sep, 2.0 * half / max_cells)
     m = max(2, int(math.floor(2.0 * half / cell)))
+    if tiny_first and m % 2 == 0:
+        m = m - 1 if m > 3 else 3
     cell = 2.0 * half / m
     if cell < 3.0 * min_sep:
         raise ValueError("spectral_case: the disc is too small for the requested separation")
-    cells = draw(st.lists(st.integers(0, m * m - 1), min_size=dim, max_size=dim, unique=True))
     eigs = []
+    if tiny_first:
+        centre = (m // 2) * m + m // 2
+        others = [c for c in range(m * m) if c != centre]
+        idx = draw(st.lists(st.integers(0, len(others) - 1), min_size=dim - 1, max_size=dim - 1, unique=True))
+        cells = [others[i] for i in idx]
+        zero = draw(st.sampled_from([True, False, False, False]))
+        mod = 0.0 if zero else radius * 10.0 ** (-draw(st.integers(3, 16)) - draw(_floats(0.0, 1.0)))
+        ph = draw(_floats(0.0, 2 * math.pi))
+        eigs.append([mod * math.cos(ph), mod * math.sin(ph)])
+    else:
+        cells = draw(st.lists(st.integers(0, m * m - 1), min_size=dim, max_size=dim, unique=True))
     for c in cells:
         ix, iy = divmod(c, m)
         jx = draw(_floats(-1.0, 1.0)) * cell / 3.0
@@ -71,3 +86,78 @@ def materialise(case):
     vinv = unitary(dim, case["u2"]).conj().T @ np.diag(1.0 / np.array(case["sv"], dtype=float)) @ unitary(dim, case["u1"]).conj().T
     m = v @ np.diag(lam) @ vinv
     return np.ascontiguousarray(m), v, lam, float(max(case["sv"]) / min(case["sv"]))
+
+
+# ----------------------------------------------------------------------------- matrices next to special classes
+
+FAMILIES = ["hermitian", "symmetric", "normal", "diagonal", "triangular"]
+
+
+def _line_lattice(draw, dim, radius, min_sep):
+    """dim real points in [-radius, radius], pairwise distance >= min_sep by construction."""
+    cell = max(3.0 * min_sep, 2.0 * radius / 40)
+    m = max(dim, int(math.floor(2.0 * radius / cell)))
+    cell = 2.0 * radius / m
+    if cell < 3.0 * min_sep:
+        raise ValueError("_line_lattice: interval too small")
+    cells = draw(st.lists(st.integers(0, m - 1), min_size=dim, max_size=dim, unique=True))
+    return [[-radius + (c + 0.5) * cell + draw(_floats(-1.0, 1.0)) * cell / 3.0, 0.0] for c in cells]
+
+
+@st.composite
+def near_special_case(draw, dim):
+    """Special matrix S (Hermitian / real symmetric / normal / diagonal / upper triangular) plus a generic complex
+    perturbation of relative size eps in [1e-12, 1e-3] (or exactly 0): M = S + eps ||S||_2 / dim * P, |P_ij| <= 1,
+    hence ||M - S||_2 <= eps ||S||_2.  Eigenvalues of S are >= 0.2 apart by construction, |lambda| <= 45 (<= 5 for
+    the triangular family whose eigenvector matrix is unit upper triangular with |v_ij| <= 0.5)."""
+    fam = draw(st.sampled_from(FAMILIES))
+    npairs = dim * (dim - 1) // 2
+    case = {"dim": dim, "family": fam}
+    if fam in ("hermitian", "symmetric"):
+        case["eigs"] = _line_lattice(draw, dim, 45.0, 0.2)
+    else:
+        radius = 5.0 if fam == "triangular" else 45.0
+        sc = draw(spectral_case(dim, kappa_max=1.0, norm_max=radius, min_sep=0.2))
+        case["eigs"] = sc["eigs"]
+    if fam in ("hermitian", "normal"):
+        case["u"] = [[draw(_floats(0.0, math.pi / 2)), draw(_floats(0.0, 2 * math.pi))] for _ in range(npairs)]
+    elif fam == "symmetric":
+        case["u"] = [[draw(_floats(0.0, math.pi / 2)), 0.0] for _ in range(npairs)]
+    elif fam == "triangular":
+        case["upper"] = [
+            [draw(_floats(0.0, 0.5)), draw(_floats(0.0, 2 * math.pi))] for _ in range(npairs)
+        ]
+    exact = draw(st.sampled_from([False] * 7 + [True]))
+    case["eps"] = 0.0 if exact else 10.0 ** (-draw(st.integers(3, 11)) - draw(_floats(0.0, 1.0)))
+    case["pert"] = [[draw(_floats(0.0, 1.0)), draw(_floats(0.0, 2 * math.pi))] for _ in range(dim * dim)]
+    return case
+
+
+def materialise_near(case):
+    """-> (M, S) as contiguous complex arrays."""
+    import numpy as np
+
+    dim, fam = case["dim"], case["family"]
+    lam = np.array([complex(z[0], z[1]) for z in case["eigs"]])
+    if fam == "diagonal":
+        s = np.diag(lam)
+    elif fam == "triangular":
+        v = np.eye(dim, dtype=np.complex128)
+        k = 0
+        for i in range(dim):
+            for j in range(i + 1, dim):
+                r, ph = case["upper"][k]
+                k += 1
+                v[i, j] = r * complex(math.cos(ph), math.sin(ph))
+        s = np.triu(v @ np.diag(lam) @ np.linalg.inv(v))
+    else:
+        u = unitary(dim, case["u"])
+        s = u @ np.diag(lam) @ u.conj().T
+        if fam == "hermitian":
+            s = (s + s.conj().T) / 2
+        elif fam == "symmetric":
+            s = s.real.astype(np.complex128)
+            s = (s + s.T) / 2
+    p = np.array([r * complex(math.cos(ph), math.sin(ph)) for r, ph in case["pert"]]).reshape(dim, dim)
+    m = s + case["eps"] * np.linalg.norm(s, 2) / dim * p
+    return np.ascontiguousarray(m), np.ascontiguousarray(s)
